@@ -42,3 +42,29 @@ Print Assumptions C03_tracker_law.
 Print Assumptions C03_conditions_keep_value.
 Print Assumptions C03_both_levels.
 Print Assumptions C03_merged_results.
+
+(* ---- lifted to whole frames (Proofs/FrameLiftP.v): every action evaluation ContextInstances::update performs in a
+   frame, for any registry, raw input and consumed set: what it stores and delivers is the law of (the merged
+   results of its inputs ++ the results of its action-level conditions) ---- *)
+From BEI Require Import Model.Frame Proofs.RegistryP Proofs.FrameLiftP.
+Theorem C03_every_evaluation_of_a_frame : forall tm r c gs,
+  Forall (fun e =>
+    let m := er_table e in
+    let ab := er_bind e in
+    let a := ab_id ab in
+    let fin := merged_pair m tm r (er_consumed e) (er_dev e) ab in
+    let v1 := fold_mods (look_of m) tm (snd fin) (ab_mods ab) in
+    let rs := fst fin ++ cond_results (look_of m) tm v1 (ab_conds ab) in
+    let d' := data_update (vdelta tm) (old_data m a) (law rs v1) (convert (aid_dim a) v1) in
+    lookup a (o_actions (er_out e)) = Some d' /\
+    rec_events e = (if suppressed rs then [] else
+                      flat_map (fun k => map (mk_event a d' k) (er_recipients e)) (table (d_state (old_data m a)) (law rs v1))))
+    (evaluations tm r c gs).
+Proof.
+  intros tm r c gs. eapply Forall_impl; [|apply evaluations_ok].
+  intros e Hok. unfold rec_ok in Hok. cbv zeta.
+  pose proof (C03_both_levels (er_table e) tm r (er_consumed e) (er_dev e) (er_recipients e) (er_bind e)) as H.
+  cbv zeta in H. rewrite <- Hok in H. destruct H as [H1 H2]. split; [exact H1|].
+  unfold rec_events. rewrite H2. reflexivity.
+Qed.
+Print Assumptions C03_every_evaluation_of_a_frame.
